@@ -138,6 +138,15 @@ func Solve(tr *TargetResult, opts *SolveOpts) []*OblResult {
 		return results
 	}
 	tag := hashOf(tr.Name, base)[:12]
+	// phase 0: one incremental z3-new process over all pending obligations (push/assert/check/pop)
+	// with a short per-query limit: the many trivial goals (nil checks, bounds of constant
+	// indices) are answered in milliseconds each without starting a process per goal.
+	if len(pending) > 3 {
+		pending = phase0(tr, opts, results, pending, tag)
+		if len(pending) == 0 {
+			return results
+		}
+	}
 	// phase 1: every obligation on its own with z3-new and a short timeout, in parallel
 	batchT := 4
 	if opts.TimeoutS < batchT {
@@ -153,7 +162,7 @@ func Solve(tr *TargetResult, opts *SolveOpts) []*OblResult {
 			opts.acquire()
 			defer opts.release()
 			file := filepath.Join(opts.TmpDir, fmt.Sprintf("p_%s_%d.smt2", tag, i))
-			os.WriteFile(file, []byte(base+"(assert "+tr.Obls[i].Cond+")\n(check-sat)\n"), 0o644)
+			os.WriteFile(file, []byte(tr.ScriptFor(tr.Obls[i].Cond)+"(assert "+tr.Obls[i].Cond+")\n(check-sat)\n"), 0o644)
 			defer os.Remove(file)
 			st, raw, d := runSolver(context.Background(), solvers[0], file, batchT)
 			results[i].Status, results[i].Solver, results[i].Time, results[i].Raw = st, "z3-new", d, firstLines(raw, 2)
@@ -168,7 +177,7 @@ func Solve(tr *TargetResult, opts *SolveOpts) []*OblResult {
 	sort.Ints(rest)
 	// phase 2: portfolio, one obligation at a time, in parallel
 	var wg sync.WaitGroup
-	names := inputNames(tr)
+	allNames := inputNames(tr)
 	for _, i := range rest {
 		i := i
 		wg.Add(1)
@@ -177,8 +186,15 @@ func Solve(tr *TargetResult, opts *SolveOpts) []*OblResult {
 			o := tr.Obls[i]
 			r := results[i]
 			var q strings.Builder
+			base := tr.ScriptFor(o.Cond)
 			q.WriteString(base)
 			fmt.Fprintf(&q, "(assert %s)\n(check-sat)\n", o.Cond)
+			var names []string
+			for _, n := range allNames {
+				if strings.Contains(base, "(declare-const "+n+" ") {
+					names = append(names, n)
+				}
+			}
 			if len(names) > 0 {
 				fmt.Fprintf(&q, "(get-value (%s))\n", strings.Join(names, " "))
 			}
@@ -373,7 +389,7 @@ func CrossCheck(tr *TargetResult, results []*OblResult, opts *SolveOpts, budget 
 		go func() {
 			defer wg.Done()
 			file := filepath.Join(opts.TmpDir, fmt.Sprintf("x_%s_%d.smt2", tag, i))
-			os.WriteFile(file, []byte(tr.Script+"(assert "+r.Obl.Cond+")\n(check-sat)\n"), 0o644)
+			os.WriteFile(file, []byte(tr.ScriptFor(r.Obl.Cond)+"(assert "+r.Obl.Cond+")\n(check-sat)\n"), 0o644)
 			defer os.Remove(file)
 			for _, s := range solvers {
 				if s.name == r.Solver || outs[i].agreed {
@@ -405,4 +421,62 @@ func CrossCheck(tr *TargetResult, results []*OblResult, opts *SolveOpts, budget 
 		}
 	}
 	return
+}
+
+// phase0 runs one incremental solver process over the pending obligations and returns the
+// indices it did not settle. Only definite answers count: unsat for a proof obligation, sat
+// for a cover; everything else is left to the per-obligation phases.
+func phase0(tr *TargetResult, opts *SolveOpts, results []*OblResult, pending []int, tag string) []int {
+	const chunk = 400
+	var rest []int
+	for start := 0; start < len(pending); start += chunk {
+		end := start + chunk
+		if end > len(pending) {
+			end = len(pending)
+		}
+		part := pending[start:end]
+		var q strings.Builder
+		q.WriteString("(set-option :timeout 700)\n")
+		q.WriteString(tr.Script)
+		for _, i := range part {
+			fmt.Fprintf(&q, "(push 1)\n(assert %s)\n(check-sat)\n(pop 1)\n", tr.Obls[i].Cond)
+		}
+		file := filepath.Join(opts.TmpDir, fmt.Sprintf("i_%s_%d.smt2", tag, start))
+		os.WriteFile(file, []byte(q.String()), 0o644)
+		opts.acquire()
+		t0 := time.Now()
+		budget := 20 + len(part)/4
+		cctx, cancel := context.WithTimeout(context.Background(), time.Duration(budget)*time.Second)
+		cmd := exec.CommandContext(cctx, "z3-new", file)
+		var out bytes.Buffer
+		cmd.Stdout = &out
+		cmd.Stderr = &out
+		cmd.Run()
+		cancel()
+		opts.release()
+		os.Remove(file)
+		dur := time.Since(t0).Seconds()
+		var answers []string
+		for _, ln := range strings.Split(out.String(), "\n") {
+			ln = strings.TrimSpace(ln)
+			if ln == "unsat" || ln == "sat" || ln == "unknown" || ln == "timeout" {
+				answers = append(answers, ln)
+			} else if strings.HasPrefix(ln, "(error") {
+				// an error line shifts nothing: z3 still prints one answer per check-sat
+				continue
+			}
+		}
+		for k, i := range part {
+			if k < len(answers) {
+				a := answers[k]
+				o := tr.Obls[i]
+				if (a == "unsat" && !o.Cover) || (a == "sat" && o.Cover) {
+					results[i].Status, results[i].Solver, results[i].Time, results[i].Raw = a, "z3-new", dur/float64(len(part)), "incremental"
+					continue
+				}
+			}
+			rest = append(rest, i)
+		}
+	}
+	return rest
 }
